@@ -14,6 +14,7 @@ import Rare.Proofs.C08Sites
 import Rare.Proofs.C08Size
 import Rare.Proofs.C08Format
 import Rare.Proofs.C08TimeW
+import Rare.Proofs.C08TimeSeam
 import Rare.Proofs.C18Cal
 import Rare.Proofs.C11
 import Rare.Model.C02
@@ -224,6 +225,43 @@ theorem time_name_tables_safe (unix off : Int) (abbr : Bytes) :
   have l2 : C18.longDayNames.length = 7 := rfl
   rw [e1, e2, l1, l2]
   omega
+
+/-! ### the zone of a parsed text: the time-world model and C18's zone-table model are one function -/
+
+/-- **C08 / C18 seam**: for every transition table, zone list, location other than `time.UTC` and parsed text, the
+    tail of `time.ParseInLocation` as the expression model has it (`Funcs.TimeW.timeOfParsed`, in the world made of
+    that table) returns – no panic, no oracle beside the table – the instant `Rare.C18.instantInN` computes from
+    the table: numeric offset, an abbreviation the location knows (both loops of `Location.lookupName`), a fabricated
+    zone for one it does not know (NOT shifted, `GMT+3` included) and `time.Date`'s two look-ups when the text has
+    no zone.  (`WallInRange`: the wall clock minus its offset is an int64 below MaxInt64, so that Go's
+    `alpha` / `omega` mean "no bound"; `wallInRange_of_bounds`: true whenever both are below 2^61 in size.) -/
+theorem time_parse_instant_eq_c18 (z : C18.ZoneTab) (zones : List (Bytes × Int)) (loc : C18.Loc) (hl : loc ≠ .utc)
+    (p : C18.Parsed) (hr : p.zone = .default → Funcs.TimeW.WallInRange z (C18.wallSeconds p.dt)) :
+    ∃ t, Funcs.TimeW.timeOfParsed (Funcs.TimeW.tabWorld z zones) loc p = .ret t ∧
+      t.unix = C18.instantInN z zones p ∧ t.nsec = p.dt.ns :=
+  Funcs.TimeW.timeOfParsed_tab z zones hl p hr
+
+example : Funcs.TimeW.WallInRange ⟨(-17762, C18.asc "LMT"), [(-2717650800, -18000, C18.asc "EST")]⟩ 1460653945 :=
+  Funcs.TimeW.wallInRange_of_bounds _ _ (by decide) (by decide +kernel)
+
+/-- The same for `time.UTC` (one segment, no zone list), in EVERY time world. -/
+theorem time_parse_instant_utc (tw : Funcs.TimeW.TimeWorld) (p : C18.Parsed) :
+    ∃ t, Funcs.TimeW.timeOfParsed tw .utc p = .ret t ∧ t.unix = C18.instantInN Funcs.TimeW.utcTab [] p ∧ t.nsec = p.dt.ns :=
+  Funcs.TimeW.timeOfParsed_utc tw p
+
+/-- **A fabricated zone does not move the instant**: when the text carries an abbreviation `Location.lookupName`
+    does not find, the parsed time is the wall clock read as UTC, in every world and location – Go only attaches
+    `FixedZone(name, offset)` (`offset` = the hours of `GMT±h`, else 0).  Kernel-checked witness:
+    `{time "Thu, 14 Apr 2016 17:12:25 GMT+3" RFC1123}` is 1460653945 = 17:12:25 UTC shown at +03:00 (the model of
+    round 3 answered 14:12:25 UTC; found by the C18 builder, reproduced on the real code, corpus/C08/r4b.case). -/
+theorem time_unknown_abbr_not_shifted :
+    (∀ (tw : Funcs.TimeW.TimeWorld) (loc : C18.Loc) (p : C18.Parsed) (n : Bytes), p.zone = .name n →
+      Funcs.TimeW.lookupName tw loc n (C18.wallSeconds p.dt) = .ret none →
+      ∃ t, Funcs.TimeW.timeOfParsed tw loc p = .ret t ∧ t.unix = C18.wallSeconds p.dt ∧ t.abbr = n) ∧
+    (∃ p, C18.parseLayout (C18.asc "Mon, 02 Jan 2006 15:04:05 MST") (C18.asc "Thu, 14 Apr 2016 17:12:25 GMT+3") = .ok p ∧
+      p.zone = .name (C18.asc "GMT+3") ∧ C18.wallSeconds p.dt = 1460653945 ∧
+      ∀ tw, Funcs.TimeW.timeOfParsed tw .utc p = .ret ⟨1460653945, 0, 10800, C18.asc "GMT+3"⟩) :=
+  ⟨Funcs.TimeW.timeOfParsed_unknown_abbr, Funcs.TimeW.gmt_plus3_witness⟩
 
 /-- Every proved-safe helper: the standard ones, `color` / `bar` / `load` / `json` in a world `w`, the time
     helpers in a time world `tw`, `format` for an `IsPrint` oracle. -/
